@@ -252,6 +252,8 @@ def part_triples(sem, dt, i, r, case):
             ('add-associative', S.add(S.add(x, y), z), S.add(x, S.add(y, z)), exact_inter[5]),
             ('mul-associative', S.mul(S.mul(x, y), z), S.mul(x, S.mul(y, z)), exact_inter[6]),
             ('distributive', S.mul(x, S.add(y, z)), S.add(S.mul(x, y), S.mul(x, z)), exact_inter[7]),
+            ('sum-vs-add', S.sum(torch.stack([x, y, z]), dim=0), S.add(S.add(x, y), z), exact_inter[5]),
+            ('sum-vs-add (2-d, dim=1)', S.sum(torch.stack([torch.stack([x, y, z]), torch.stack([z, y, x])]), dim=1)[0], S.sum(torch.stack([torch.stack([x, y, z]), torch.stack([z, y, x])]), dim=1)[1], exact_inter[5]),
         ]
         bad = False
         M = max([abs(float(v)) for v in (A[i], A[j], A[k]) if abs(v) != inf] + [abs(float(e)) for e in exact_inter if e not in (inf, -inf)] + [0.0])
